@@ -548,6 +548,9 @@ def run(ctx):
     rep.assumptions += ['clang -O0 IR of the instantiated skeleton is a faithful rendering of the generated source',
                         'C++ virtual calls resolve to the yyFlexLexer implementations (no user subclass overrides)',
                         'yy_start_stack_ptr <= yy_start_stack_depth is an invariant maintained by push (upper bound in pop/top is not re-tested by the skeleton)']
+    import tbl
+    tbl.rule_language(ctx, 'C05.R5', probes=('sc', 'nest'), what='the rules active in every start condition (nested scopes, <*>, inclusive/exclusive)')
+    rep.floor('C05.R5', 18, 'language probes x table representations')
     return rep.finish('other',
         'Who-may-write analysis of the start-state register over the LLVM IR of %d instantiated scanner variants (all five back ends, call graph with '
         'C++ virtual calls resolved through the class vtable); relational check of the bounds guards of the start-condition stack (edge predicate over '
